@@ -4,7 +4,7 @@ from __future__ import annotations
 import simplify
 
 ID = "C02"
-THEOREMS = ["simplifyCk_preserves", "simplifyCk_refines", "simpCk_sound", "sem_called_lambda", "rename_le_both",
+THEOREMS = ["simplify_sound_of_checked", "simpCk_refines_simp", "simplifyCk_refines_simplify", "simplifyCk_preserves", "simplifyCk_refines", "simpCk_sound", "sem_attr_first", "sem_called_lambda", "rename_le_both",
             "select_identity_sem", "makeSelect_sem", "makeArgsUnique_counter", "freshNames_mem", "lambdaIsIdentity_sound",
             "rule_select_select", "rule_selectMany_select", "rule_where_select", "rule_where_where", "rule_select_selectMany",
             "rule_where_selectMany", "rule_selectMany_selectMany", "rule_first_attr", "rule_first_sub", "rule_tuple_index", "rule_list_index",
@@ -26,8 +26,11 @@ EXPLANATION = (
     "substitution (EnvRel, sem_called_lambda: positional and keyword binding), and the rule theorems rule_* for every "
     "fusion / push-down / projection rule. The checked model simpCk is simp with its side conditions (freshness of generated "
     "names, no capture when a lambda is nested under another's parameter, parameters not used as callee names) as explicit "
-    "guards; that no guard ever fires is not yet a theorem: every run evaluates simpCk next to simp on every generated "
-    "query and reports any difference as a broken correspondence (unit simpCk-side-conditions). Comprehensions are refused "
+    "guards. Theorem simpCk_refines_simp: whenever simpCk returns a result, simp - the model compared with the code on every "
+    "run - returns the same result, so simplify_sound_of_checked states the preservation for the output of simp itself on "
+    "every query the checked model accepts. A query on which a guard fires (a lambda parameter used as a function, a "
+    "generated arg_N name already in use, ...) is outside the theorem's domain and is covered by the correspondence and "
+    "the evaluation oracles only; the evidence counts them per guard (outside-checked-model). Comprehensions are refused "
     "by simpCk (they are lowered by the sugar pass before the simplifier runs; the implementation captures a comprehension "
     "target, see DESIGN 12.5). Per run: simplify_chained_calls vs the compiled Lean simp on every generated query (modulo "
     "alpha), Lean ev of original vs simplified on three datasets, CPython evaluation of both on two datasets for a sample."
